@@ -4,9 +4,14 @@
    Which date an entry has: the FIRST DeletionDate line (Codec/TrashInfo.date_of; C03 shows the writer's
    date reads back).  That a selected entry is removed whole and a kept one untouched: C15 ordering,
    C11 containment, and Empty.empty_one_info (nothing is issued for an entry that is not ok_to_delete).
-   Proofs in Proofs/CalendarProofs.v. *)
+   Both directions of "exactly": only approved paths are removed (empty_removes_only_approved, and on the world
+   empty_days_changes_only_approved), and every entry that must go does go (empty_purges_every_old_entry: the listing of info/
+   is worked through in order, every approved entry's payload and info file are absent, removed with success, or reported as
+   not removable, before the next one is looked at - Proofs/EmptyLive.v).
+   Proofs in Proofs/CalendarProofs.v, Proofs/DecisionProofs.v, Proofs/EmptyLive.v. *)
 From TV Require Import Prelude.Str Codec.DateFmt Codec.TrashInfo Logic.Calendar Prog.Prog Cmd.Empty
-  Proofs.ProgProofs Proofs.PathProofs Proofs.CalendarProofs Proofs.DecisionProofs World.World Proofs.WorldProofs Proofs.WorldPurge.
+  Proofs.ProgProofs Proofs.PathProofs Proofs.CalendarProofs Proofs.DecisionProofs World.World Proofs.WorldProofs Proofs.WorldPurge Proofs.EmptyLive
+  Prelude.PosixPath Cmd.Put Cmd.Scan.
 Open Scope Z_scope.
 
 (* the comparison datetime < datetime is the order of instants *)
@@ -59,6 +64,32 @@ Proof.
   - split; [discriminate|]. intros [d [H _]]. discriminate.
 Qed.
 Print Assumptions is_old_iff.
+
+(* liveness: every entry that must go, goes (per trash directory; not a dry run; the run ends normally) *)
+Theorem empty_purges_every_old_entry : forall o path, eo_dry_run o = false ->
+  all_runs (fun t out => forall a, out = Done a ->
+              accepts (elive_step (eo_days o) (env_now (eo_environ o)) (join2 path s_info)) EStart t = Some (ESt [] ENext))
+           (empty_trash_dir o path).
+Proof. exact empty_purges_every_old_entry_lemma. Qed.
+Print Assumptions empty_purges_every_old_entry.
+
+Example an_old_entry_left_behind_is_noticed :
+  accepts (elive_step (Some 1) None ($"/t/info")) EStart
+    [(Exists ($"/t/info"), RBool true); (Listdir ($"/t/info"), RList [$"a.trashinfo"]);
+     (ReadText ($"/t/info/a.trashinfo"), RStr ($"[Trash Info]" ++ [10%N] ++ $"DeletionDate=2024-02-28T23:59:59"));
+     (Now, RDate (mkdt 2024 3 1 0 0 0 0)); (Lexists ($"/t/files/a"), RBool true); (Remove ($"/t/files/a"), RUnit)]
+  = Some (ESt [] (EInfo ($"/t/info/a.trashinfo"))).
+Proof. vm_compute. reflexivity. Qed.
+Example a_whole_purge_ends_with_nothing_pending :
+  accepts (elive_step (Some 1) None ($"/t/info")) EStart
+    [(Exists ($"/t/info"), RBool true); (Listdir ($"/t/info"), RList [$"a.trashinfo"; $"b.trashinfo"]);
+     (ReadText ($"/t/info/a.trashinfo"), RStr ($"[Trash Info]" ++ [10%N] ++ $"DeletionDate=2024-02-28T23:59:59"));
+     (Now, RDate (mkdt 2024 3 1 0 0 0 0)); (Lexists ($"/t/files/a"), RBool true); (Remove ($"/t/files/a"), RUnit);
+     (Lexists ($"/t/info/a.trashinfo"), RBool true); (Remove ($"/t/info/a.trashinfo"), RUnit);
+     (ReadText ($"/t/info/b.trashinfo"), RStr ($"[Trash Info]" ++ [10%N] ++ $"DeletionDate=2024-02-29T00:00:00"));
+     (Now, RDate (mkdt 2024 3 1 0 0 0 0))]
+  = Some (ESt [] ENext).
+Proof. vm_compute. reflexivity. Qed.
 
 Example boundary :
   let now := mkdt 2024 3 1 0 0 0 0 in
